@@ -33,13 +33,17 @@ impl CliArgs {
 
     pub fn create_interpreter(&self) -> Interpreter {
         let mut interpreter = Interpreter::default();
+        self.configure_interpreter(&mut interpreter);
+        interpreter
+    }
+
+    /// Applies the command-line options to the given interpreter.
+    pub fn configure_interpreter(&self, interpreter: &mut Interpreter) {
         interpreter.enable_warnings = self.warnings;
         interpreter.enable_tracing = self.tracing;
 
         let now = SystemTime::now();
         let seed = now.elapsed().unwrap().as_millis() as u64;
         interpreter.randomize(seed);
-
-        interpreter
     }
 }
